@@ -32,6 +32,11 @@ def run(prog: Program, rep: Report, tier: str):
     c01_pair.rule_pair(prog, rep)
     c01_pair.rule_spline_root(prog, rep)
     c01_pair.rule_planar_inverse(prog, rep)
+    # ... which inverts the forward map only if the activation the forward map applies IS leaky_relu with that slope
+    from .c07 import rule_planar_activation
+    rep.rule("C01.planar-activation", "the activation _UnconditionalPlanar applies is tanh (no slope) or leaky_relu(z, slope): "
+                                      "the analytic inverse selects the slope by the sign of the pre-activation", minimum=5)
+    rule_planar_activation(prog, rep, "C01.planar-activation")
     from .lints import rule_stable_bijections
     rule_stable_bijections(prog, rep, "C01.stable")
     # the numerically inverted network has an inverse only while it is increasing in every coordinate: positive
